@@ -32,7 +32,6 @@ func TestWorld(t *testing.T) {
 }
 
 func run(prop string) {
-	bubbleKick()
 	switch prop {
 	case "C08":
 		runC08()
@@ -75,7 +74,6 @@ type world struct {
 	hist     [nFam][]*rec
 	nextTag  uint32
 	ops      [maxClients + 1]int // sub-operations recorded per client (index maxClients = root)
-	noSleep  bool
 }
 
 func newWorld(nClients int, fams []fam) *world {
@@ -637,7 +635,7 @@ func (w *world) clients(perClient int) {
 		c := c
 		g.Go(fmt.Sprintf("client%d", c), func() {
 			for n := 0; n < perClient && w.ops[c] < maxOpsPerClient; n++ {
-				if !w.noSleep && simrt.Chance(1, 6, "sleep") {
+				if simrt.Chance(1, 6, "sleep") {
 					// the clock only moves when every caller is asleep or done
 					simrt.Sleep(time.Duration(1+simrt.Choose(3, "sleepfor")) * 10 * time.Second)
 				}
@@ -824,7 +822,7 @@ func runC10() {
 			f := w.fams[simrt.Choose(len(w.fams), "fam")]
 			a := w.gen(0, f)
 			w.do(0, a)
-			w.do(0, &action{ins: []*opIn{{fam: f, kind: kDump}}})
+			w.dumpAll(0) // every table, after every single operation
 		}
 		simrt.Probe("single_caller_run")
 		w.check()
